@@ -44,6 +44,10 @@ def step_to_coq(st):
         return "(SHide %d %s)" % (op[1], dump_to_coq(st["dump"]))
     if k == "clear":
         return "(SClear %s)" % dump_to_coq(st["dump"])
+    if k == "config":
+        nc = op[1]
+        rw = ["(%s, %s)" % (cstr(a), cstr(b)) for a, b in st.get("rw", [])]
+        return "(SSetCfg %s %s %s %s %s)" % (cstrs(nc["patterns"]), cbool(nc["fuzzy"]), cbool(len(nc["map"]) > 0), coq_list(rw), dump_to_coq(st["dump"]))
     if k == "find":
         return "(SFind %s %s)" % (cstr(op[1]), copt(st.get("ret"), str))
     raise ValueError(k)
@@ -53,7 +57,7 @@ def case_to_coq(c):
     cfg = c["cfg"]
     wss = ["(mkWs %s %s %d)" % (cstrs(r["comps"]), copt(r["pkg"], cstrs), r["ws"]) for r in cfg["roots"]]
     rw = ["(%s, %s)" % (cstr(a), cstr(b)) for a, b in c["rw"]]
-    mp = ["(%s, %s)" % (cstr(a), copt(b, cstr)) for a, b in c["mp"]]
+    mp = ["((%s, %s), %s)" % (cstrs(p), cstr(a), copt(b, cstr)) for p, a, b in c["mp"]]
     sizes = [str(v) for _, v in c["sizes"][:6]]
     return "(mkCase %s %s %s %s %s %s %s %s)" % (
         cstrs(cfg["patterns"]), coq_list(wss), cbool(cfg["fuzzy"]), cbool(len(cfg["map"]) > 0), coq_list(rw), coq_list(mp),
@@ -67,7 +71,7 @@ def module_correspondence(ck, binpath, n, label="corr"):
     if rc != 0:
         ck.tie_broken("harness c33 corr failed", err[-2000:])
         return
-    cases = [json.loads(l) for l in out.splitlines() if l.strip()]
+    cases = [json.loads(l) for l in jlines(out) if l.strip()]
     terms = [case_to_coq(c) for c in cases]
     failing = ck.coq_failing(label, terms, ["EV.C33.Model", "EV.C33.Corr"], per_shard=25)
     nops = 0
